@@ -233,9 +233,18 @@ def r8(rr, repo):
     # requests / CLOSE / OOB are pushed without waiting
     sp = [c for c in q.calls_in(za.R_Sender) if isinstance(c.func, ast.Attribute) and c.func.attr == 'send_multipart' and 'push' in U(c.func.value)]
     rr.floor("push sends", len(sp), 1, za.mod, za.R_Sender)
+    def always_nonblocking(e):
+        # the flag expression carries DONTWAIT / NOBLOCK on every evaluation: the constant itself, an OR-combination that contains it, a conditional whose both arms do
+        if isinstance(e, ast.Attribute) and e.attr in ('DONTWAIT', 'NOBLOCK'):
+            return True
+        if isinstance(e, ast.BinOp) and isinstance(e.op, ast.BitOr):
+            return always_nonblocking(e.left) or always_nonblocking(e.right)
+        if isinstance(e, ast.IfExp):
+            return always_nonblocking(e.body) and always_nonblocking(e.orelse)
+        return False
     for c in sp:
-        flags = [U(a) for a in c.args[1:]] + [U(k.value) for k in c.keywords if k.arg == 'flags']
-        rr.ob('a request is pushed with DONTWAIT (a dead publisher cannot block the consumer)', any('DONTWAIT' in f or 'NOBLOCK' in f for f in flags), za.mod, c, witness=U(c)[:120], key='push-dontwait')
+        flags = list(c.args[1:]) + [k.value for k in c.keywords if k.arg == 'flags']
+        rr.ob('a request is pushed with DONTWAIT on every call, whatever the state of the connection (a dead publisher cannot block the consumer)', any(always_nonblocking(f) for f in flags), za.mod, c, witness=U(c)[:140], key='push-dontwait')
 
 
 @rule('C05.R9', "an ephemeral source coming or going never moves the synchronized stream's expected id: the shared expected id is (re)bound only at entry and to the id of an accepted synchronized message, a CLOSE "
